@@ -225,17 +225,21 @@ def _process_repeated_resources(
         assert resource_name in child_resources
         assert backend.serialize(resource.value) == f"{children[0].name}.{resource.name}"
     for resource in child_resources.values():
+        # Refer to the child's resource by name: its (already compiled) value is substituted, together with the
+        # routine's own symbols, in a single simultaneous step later on. Using the compiled value here would expose
+        # it to a second substitution of this routine's symbols.
+        child_resource = backend.as_expression(f"{children[0].name}.{resource.name}")
         if resource.type == "additive":
-            new_value = repetition.sequence_sum(resource.value, backend)
+            new_value = repetition.sequence_sum(child_resource, backend)
         elif resource.type == "multiplicative":
-            new_value = repetition.sequence_prod(resource.value, backend)
+            new_value = repetition.sequence_prod(child_resource, backend)
         elif resource.type == "qubits" and repetition.sequence.type == "constant":
             # NOTE: Actually this could also be `new_value = resource.value`.
             # The reason it's not, is that in such case local_ancillae are counted twice
             # in calculate_highwater.
             continue
         elif ast.literal_eval(os.environ.get(REPETITION_ALLOW_ARBITRARY_RESOURCES_ENV, "False")):
-            new_value = resource.value
+            new_value = child_resource
             warnings.warn(
                 f'Can\'t process resource "{resource.name}" of type "{resource.type}" in repetitive structure.'
                 "Passing its value as is without modifications. "
